@@ -136,7 +136,7 @@ def run(res, tier, rng, table_diffs=()):
         if diff.obs(r["impl"]).startswith("ok") and st.get("halt", "0") != "0":
             return "values were left on the operand stack when the program ended (residue)"
         return None
-    sweep = gen2.offset_sweep_programs(1500 if tier == "quick" else 4000, full=(tier != "quick"))
+    sweep = gen2.offset_sweep_programs(1500 if tier == "quick" else 3000, full=False)
     want = {src: exp for src, exp in sweep}
     cases += [("offset-sweep", src) for src, _ in sweep]
 
